@@ -229,10 +229,7 @@ Definition tsweep (t : Z) (e : tep) : tep :=
 (* ------------------------------------------------------------------------ *)
 (* the two endpoints, the network and the clock                                *)
 
-Inductive tev :=
-| Ev (e : ev)          (* an event of the untimed script *)
-| Age (d : Z)          (* d units of time pass (nothing is swept) *)
-| Sweep (atB : bool).  (* CheckExpirations now *)
+(* the script type [tev] = Ev e | Age d | Sweep side is pure scenario data: Blockwise/Config.v *)
 
 Record tworld := { twa : tep; twb : tep; tflight : list (bool * msg); twhist : list (bool * msg);
                    tvers : list (Z * Z); tpending : list (nat * Z); tnow : Z }.
